@@ -4030,7 +4030,10 @@ class mulgrid(object):
             self.identify_neighbours()
             self.setup_block_name_index()
             self.setup_block_connection_name_index()
-        else: print('Grid selection contains columns with more than 4 nodes: not supported.')
+        else:
+            # (delete any midside nodes already created, so they are not left as orphans)
+            for nd in sidenodes.values(): self.delete_node(nd.name)
+            print('Grid selection contains columns with more than 4 nodes: not supported.')
 
     def refine_layers(self, layers = [], factor = 2, chars = ascii_lowercase,
                       spaces = True):
